@@ -54,6 +54,7 @@ DECIDING = {
     "selection_default": "`default` selected among several",
     "selection_error": "selection must fail (unknown / ambiguous / none)",
     "tags_checked": "!Env / !TextFile / !BinaryFile values",
+    "yaml_alias_cases": "a mapping shared through a YAML anchor/alias, overridden at one of its two places by a later layer",
 }
 ASSUMPTIONS = [
     "a top-level `component` together with `services` is not generated; keys never contain a double backslash (DESIGN.md section 4)",
@@ -145,7 +146,25 @@ def gen_case(idx: int, seed: int, tier: str) -> Any:
             for kind in rng.sample(["Env", "Env_unset", "TextFile", "BinaryFile"], rng.randint(1, 3)):
                 tags.append(kind)
                 where["tag_" + kind] = {"__tag__": kind}
+    # one mapping referenced from two places of the first file (PyYAML writes it as an anchor and an alias, and loads it
+    # back as ONE dict object); a later file / --set then overrides something under only one of the two places
+    alias_base = None
+    if rng.random() < 0.3:
+        where0 = files[0].get("component") if layout == "component" else (files[0].get("services", {}).get(names[0], {}).get("component") if names else None)
+        if isinstance(where0, dict):
+            where0["shared_a"] = {"x": 1, "deep": {"k": 1, "other": [1, 2]}}
+            where0["shared_b"] = {"__same_as__": "shared_a"}
+            alias_base = "component" if layout == "component" else f"services.{names[0]}.component"
+            if nfiles >= 2 and rng.random() < 0.7:
+                over = {"shared_b": {"deep": {"k": rng.choice([2, "changed"])}, "added": True}}
+                tgt = files[-1]
+                if layout == "component":
+                    tgt.setdefault("component", {}).update(over)
+                else:
+                    tgt.setdefault("services", {}).setdefault(names[0], {}).setdefault("component", {}).update(over)
     sets: list[list[str]] = []
+    if alias_base and rng.random() < 0.5:
+        sets.append(["kv", f"{alias_base}.shared_b.deep.k", rng.choice(["7", "via_set"])])
     for _ in range(rng.choice([0, 0, 1, 2, 3, 5])):
         r = rng.random()
         base = "component" if layout == "component" else (f"services.{rng.choice(names)}.component" if names and rng.random() < 0.8 else "")
@@ -170,7 +189,7 @@ def gen_case(idx: int, seed: int, tier: str) -> Any:
         return "unknown_service"
 
     return {"layout": layout, "files": files, "sets": sets, "service": pick(), "env_service": pick(), "tier_b": tier_b, "tags": tags,
-            "short_flag": rng.random() < 0.5}
+            "short_flag": rng.random() < 0.5, "aliased": bool(alias_base)}
 
 
 # ----------------------------------------------------------------------------- execution
@@ -205,7 +224,12 @@ def materialize(case: dict[str, Any]) -> tuple[list[str], list[dict[str, Any]], 
         if isinstance(x, dict):
             if "__tag__" in x:
                 return values[x["__tag__"]] if for_model else tagobj[x["__tag__"]]
-            return {k: conv(v, for_model) for k, v in x.items()}
+            out = {k: conv(v, for_model) for k, v in x.items() if not (isinstance(v, dict) and "__same_as__" in v)}
+            for k, v in x.items():
+                if isinstance(v, dict) and "__same_as__" in v:
+                    # the YAML document gets the very same object (-> anchor/alias); the model an independent equal copy
+                    out[k] = conv(x[v["__same_as__"]], True) if for_model else out[v["__same_as__"]]
+            return out
         if isinstance(x, list):
             return [conv(v, for_model) for v in x]
         return x
@@ -368,6 +392,8 @@ def run_case(case: Any) -> dict[str, Any]:
             inc("selection_single" if n == 1 else "selection_default")
     if case["tags"]:
         inc("tags_checked", len(case["tags"]))
+    if case.get("aliased"):
+        inc("yaml_alias_cases")
     nontrivial = (len(case["files"]) >= 2 or len(case["sets"]) >= 1) and case["layout"] == "services"
     sample = {"argv": [a.replace(workdir(), "<tmp>") for a in args], "env_service": ev, "files": case["files"],
               "expected": str(exp) if isinstance(exp, CliError) else {"type": exp["type"], "component": repr(exp["component"]), "options": repr(exp["kwargs"])}} \
